@@ -195,11 +195,27 @@ def gen_loess_state(repo=None):
         if need not in reach:
             raise TranslateError(f'the loess driver no longer reaches polynomial.{need}')
 
+    # module-level data (constants, thresholds, tables) the driver or a strategy function refers to
+    module_data = set()
+    for st in tree.body:
+        tgts = st.targets if isinstance(st, ast.Assign) else ([st.target] if isinstance(st, (ast.AnnAssign, ast.AugAssign)) else [])
+        for t in tgts:
+            for nm in ast.walk(t):
+                if isinstance(nm, ast.Name):
+                    module_data.add(nm.id)
+    module_data.discard('_polynomial_wrapper')
+    used = set()
+    for fn in [method] + [funcs[nm] for nm in reach]:
+        local = {a.arg for a in fn.args.args + fn.args.kwonlyargs}
+        for n in ast.walk(fn):
+            if isinstance(n, ast.Name) and isinstance(n.ctx, ast.Load) and n.id in module_data and n.id not in local:
+                used.add(f'{fn.name}:{n.id}')
     lines = ['(* Generated by tools/gen_loess_state.py from the current /repo source; do not edit. *)',
              'From Coq Require Import List String.',
              'Import ListNotations.',
              'Open Scope string_scope.',
              '',
+             f'Definition loess_module_data_used : list string := {_coq_strings(sorted(used))}.',
              f'Definition loess_self_reads : list string := {_coq_strings(sorted(reads))}.',
              f'Definition loess_self_writes : list string := {_coq_strings(writes)}.',
              f'Definition loess_self_calls : list string := {_coq_strings(sorted(calls))}.',
@@ -304,11 +320,15 @@ def gen_loess_driver(repo=None):
             tgt = ast.unparse(st.targets[0])
             if tgt in tested or tgt.startswith('tol_history') or tgt == 'baseline_old':
                 defs.append(ast.unparse(st))
+    tests = [ast.unparse(n.test) for n in ast.walk(loop) if isinstance(n, (ast.If, ast.IfExp))]
+    assigns = [' '.join(ast.unparse(n).split()) for n in ast.walk(loop) if isinstance(n, (ast.Assign, ast.AugAssign, ast.AnnAssign))]
     lines = ['(* Generated by tools/gen_loess_state.py from the current /repo source; do not edit. *)',
              'From Coq Require Import List String.',
              'Import ListNotations.',
              'Open Scope string_scope.',
              '',
+             f'Definition loess_loop_tests : list string := {_coq_strings(tests)}.',
+             f'Definition loess_loop_assignments : list string := {_coq_strings(assigns)}.',
              f'Definition loess_loop_header : string := "{("for " + ast.unparse(loop.target) + " in " + ast.unparse(loop.iter))}".',
              'Definition loess_loop_exits : list (string * string) := ['
              + '; '.join(f'("{k}", "{g}")' for k, g in exits) + '].',
